@@ -38,14 +38,14 @@ PROPS = {
                 rule="L1: MUL/IMUL/DIV/IDIV byte forms on (lattice+random AX) x all 256 operands, word forms on lattice triples + random 48-bit triples "
                      "biased to the quotient-overflow boundary; adjusts on AX x {AF,CF}; non-trivial = state changed or divide error"
                      " l2i ishapes: requests generated from the CURRENT interpreter grammar (every alternative of every instruction production x every table entry x every memory-operand alternative); l2 mixseq: mixed straight-line sequences over all instruction classes."),
-    "C04": dict(modules=["Emu8086.Props.C04", "Emu8086.Props.ExecAll"], runs=[("l2", "mov+xfer"), ("l2", "arith+logic+shift+muldiv"), ("l3", "operands"), ("l4", "dataref"), ("l2i", "ishapes")], gen=["Arch", "ILiterals"],
+    "C04": dict(modules=["Emu8086.Props.C04", "Emu8086.Props.ExecAll"], runs=[("l2", "mov+xfer"), ("l2", "arith+logic+shift+muldiv"), ("l3", "operands"), ("l4", "dataref"), ("l2i", "ishapes"), ("l2", "alias")], gen=["Arch", "ILiterals"],
                 rule="L2 (Interpreter::parse on a fully specified machine): random lines of the MOV/XCHG/LEA and ALU families over all operand shapes "
                      "(direct, indirect, based, indexed, based-indexed, +-displacement, segment override, data label) x adversarial registers/segments "
                      "(lattice values, segments straddling 2^20); memory is a position-dependent pattern, so a read identifies the address used and the "
                      "full-memory diff shows every write; non-trivial = state or outcome differs from a plain NEXT; distinct = distinct request text"
                      " L3 operands: every memory-operand shape x override x base x index x 20 instruction frames written from syntax.md, the emitted line must mean the source instruction (request opnd). L4 dataref: label reads against an image computed by the generator."
                      " l2i ishapes: requests generated from the CURRENT interpreter grammar (every alternative x every table entry x every memory-operand alternative)."),
-    "C05": dict(modules=["Emu8086.Props.C05"], runs=[("l2", "mov+xfer+stack"), ("l2", "stackseq"), ("l2i", "ishapes"), ("l2", "mixseq")], gen=["Arch", "ILiterals"],
+    "C05": dict(modules=["Emu8086.Props.C05"], runs=[("l2", "mov+xfer+stack"), ("l2", "stackseq"), ("l2i", "ishapes"), ("l2", "mixseq"), ("l2", "alias")], gen=["Arch", "ILiterals"],
                 rule="L2: MOV/XCHG/PUSH/POP/PUSHF/POPF/LAHF/SAHF/XLAT over all operand kinds x adversarial SS:SP (0, 1, FFFFh, top of memory); "
                      "stackseq = straight-line random interleavings of pushes/pops/moves (length up to 64 quick / 2000 thorough) executed line by line "
                      "against the model and the reference; non-trivial = more than one instruction or a state change"
@@ -55,13 +55,13 @@ PROPS = {
                      "(x CX lattice + random for JCXZ/LOOP*); jump: random jumps/calls/rets/ints; non-trivial = outcome other than plain NEXT or CX changed"
                      " L3 jumpspell: every Intel jump/loop mnemonic in both cases through the real assembler, emitted jump must belong to its Intel class (request jsp)."
                      " l2i ishapes: requests generated from the CURRENT interpreter grammar (every alternative x every table entry x every memory-operand alternative)."),
-    "C07": dict(modules=["Emu8086.Props.C07"], runs=[("l2", "string"), ("l2", "rep"), ("l4", "strings"), ("l2i", "ishapes"), ("l2", "mixseq")], gen=["Arch", "ILiterals"],
+    "C07": dict(modules=["Emu8086.Props.C07"], runs=[("l2", "string"), ("l2", "rep"), ("l4", "strings"), ("l2i", "ishapes"), ("l2", "mixseq"), ("l2", "alias")], gen=["Arch", "ILiterals"],
                 rule="L2 string: single steps of every string instruction x width x DF x prefix on adversarial DS/ES/SI/DI; rep: the REPEAT protocol "
                      "driven to completion (the driver's loop) for every mnemonic x width x DF x prefix x CX in 0..64 (+255, 300; thorough also 4095, 32768, 65535), "
                      "with aliasing DS:SI/ES:DI and runs of equal bytes; non-trivial = CX != 0 or a state change"
                      " L4 strings: whole programs with every string mnemonic x width x DF x prefix run by the real binary's own REPEAT handling (plain and -i), over data that stops conditional repeats early, late or never."
                      " l2i ishapes: requests generated from the CURRENT interpreter grammar (every alternative of every instruction production x every table entry x every memory-operand alternative); l2 mixseq: mixed straight-line sequences over all instruction classes."),
-    "C09": dict(modules=["Emu8086.Props.C09", "Emu8086.Props.ExecAll"], runs=[("l2", "all"), ("l2", "malformed"), ("l2", "divx"), ("l2i", "ishapes"), ("l2", "mixseq")], gen=["Arch", "ILiterals"],
+    "C09": dict(modules=["Emu8086.Props.C09", "Emu8086.Props.ExecAll"], runs=[("l2", "all"), ("l2", "malformed"), ("l2", "divx"), ("l2i", "ishapes"), ("l2", "mixseq"), ("l2", "alias")], gen=["Arch", "ILiterals"],
                 rule="L2: every instruction class x adversarial machine states (registers from {0,1,7FFFh,8000h,FFFEh,FFFFh,random}, segments straddling 2^20, "
                      "counts 0..255, divisors 0/1/-1) with catch_unwind in an overflow-checking build: a PANIC of the real code is a violation; malformed = "
                      "near-miss lines the assembler never emits (must be a reported error in both); divx = MUL/IMUL/DIV/IDIV over the boundary lattice^3 of (AX, DX, operand) x 10 operand forms (divisors 0/1/-1, MIN dividends); non-trivial = outcome/state differs from plain NEXT"
